@@ -34,9 +34,9 @@ RULE = ('cases: seeded batch_run calls on a self-identifying fixture model: grid
 ASSUMPTIONS = ['a batch_run call that hangs in Pool.terminate() after a failed execution is the known finding F7; any other hang is inconclusive',
                'fault position = n-th model construction (global ordinal claimed through O_EXCL files), which equals the list position for one '
                'process and approximates it for several', 'a hang outside that mechanism is reported as inconclusive by the watchdog, not as a violation']
-FLOORS = {'quick': {'fault_exc_InjectedModelComplete': 5, 'batches': 100, 'executions_checked': 310, 'records_checked': 1200, 'fault_batches': 30, 'faults_propagated': 30,
+FLOORS = {'quick': {'parameter_list_used_for_an_earlier_batch': 8, 'parameter_list_from_a_dict_reused_by_the_caller': 8, 'fault_exc_InjectedModelComplete': 5, 'batches': 100, 'executions_checked': 310, 'records_checked': 1200, 'fault_batches': 30, 'faults_propagated': 30,
                     'multi_process_batches': 50, 'reordered_batches': 5, 'serial_order_checks': 10, 'limit_below_completion': 15,
-                    'limit_above_completion': 15, 'multi_collector_batches': 20, 'no_collector_batches': 8, 'big_batches_many_runs': 1, 'big_batches_long_runs': 1, 'big_batches_many_repetitions': 1, 'fault_exc_InjectedKeyError': 10, 'collectors_at_completer_priority': 33, 'parameter_list_with_history': 11, 'procs_1': 20, 'procs_2_4': 20, 'procs_5_8': 8, 'procs_9_16': 8},
+                    'limit_above_completion': 15, 'multi_collector_batches': 20, 'no_collector_batches': 8, 'big_batches_many_runs': 1, 'big_batches_long_runs': 1, 'big_batches_many_repetitions': 1, 'fault_exc_InjectedKeyError': 8, 'collectors_at_completer_priority': 27, 'parameter_list_with_history': 11, 'procs_1': 20, 'procs_2_4': 20, 'procs_5_8': 8, 'procs_9_16': 8},
           'thorough': {'batches': 3000, 'fault_batches': 1000, 'reordered_batches': 200, 'procs_9_16': 200}}
 EXHAUSTIVE = {}
 
@@ -97,6 +97,7 @@ def gen_spec(rng, sid, fault_ordinal=None, base=None):
         base = dict(grid=grid, repetitions=reps, stop=stop, max_timesteps=lim, collector_ids=all_ids, collectors=collectors, processes=procs,
                     use_parameter_list=use_pl, explicit_reps=rng.random() < 0.5,
                     pl_history=use_pl and rng.random() < 0.5,
+                    pl_from_dict=use_pl and rng.random() < 0.4, pl_warmup=(rng.choice([2, 3, 0]) if use_pl and rng.random() < 0.5 else None),
                     collector_priority=rng.choice([None, None, 0]))   # 0 = same priority as the completing system   # the ParameterList was built before and a parameter removed since
     spec = dict(base)
     spec['id'] = sid
@@ -203,6 +204,10 @@ def check_batch(ctx, spec, out):
         ctx.count('multi_process_batches')
     if spec.get('pl_history'):
         ctx.count('parameter_list_with_history')
+    if spec.get('pl_from_dict'):
+        ctx.count('parameter_list_from_a_dict_reused_by_the_caller')
+    if spec.get('pl_warmup') is not None:
+        ctx.count('parameter_list_used_for_an_earlier_batch')
     if spec.get('collector_priority') is not None:
         ctx.count('collectors_at_completer_priority')
     ctx.state(('procs', spec['processes']))
